@@ -413,3 +413,33 @@ def state_readers(ctx, rep, roles, P, rule="RW.10"):
     w.forward(d, [], lib=["get"], why="lookup by id")
     rep.floor("forwarder-obligations", w.n, 16)
     rep.instance(w.n)
+
+
+def vv_conversions(ctx, rep, roles, P, rule="RW.11"):
+    rep.rule(rule, "VersionedValue <-> VersionedValueForSerialization (serde / snapshot form) copy value and version unchanged and convert only the status")
+    fx = ctx.fx
+    w = W(rep, P, rule, fx)
+    VV, VS = "types::VersionedValue", "types::VersionedValueForSerialization"
+    pairs = [(VV, "std::convert::From<%s>" % VS, VS), (VS, "std::convert::From<%s>" % VV, VV)]
+    for dst, trait, src in pairs:
+        f = _m(fx, "vv_from_" + src.split("::")[-1], dst, [src], dst, "from", trait=trait)
+        eng, rows = table(fx, f)
+        rets = [r for r in rows if r.exit == "return"]
+        ok = len(rets) == 1 and len(rows) == 1
+        detail = "%d paths" % len(rows)
+        if ok:
+            t = T.resolve_locals(eng, rets[0].store, rets[0].ret)
+            ok = t[0] == "agg" and t[1] == dst
+            if ok:
+                val, ver, st = T.field(t, "value"), T.field(t, "version"), T.field(t, "status")
+                arg = fx.fns[f["id"]].get("params") or None
+                fv, fver = sym.fmt(val), sym.fmt(ver)
+                ok = fv.endswith(".value") and fver.endswith(".version") and fv.split(".")[0] == fver.split(".")[0] and "(" not in fv and "(" not in fver
+                calls = [x for x in T.subterms(st) if x[0] == "call"]
+                names = {short(x[1]) for x in calls}
+                ok = ok and names <= {"into_status", "from", "into", "now"} and any(sym.fmt(a).endswith(".status") for x in calls for a in x[2])
+                detail = "value=%s version=%s status=%s" % (fv, fver, sym.fmt(st)[:80])
+        w.n += 1
+        rep.obligation(ok, w.key(f, "copy"), "%s -> %s: %s" % (src, dst, detail), where(f), sample="%s -> %s: value, version copied; status converted" % (src.split("::")[-1], dst.split("::")[-1]))
+    rep.floor("forwarder-obligations", w.n, 2)
+    rep.instance(w.n)
